@@ -83,6 +83,20 @@ for _p in ("C01", "C06", "C16"):
     witness(_p, "argm??/*/null-field-shape-differs-from-values")(_argmin_nullable_mask_unreduced)
 
 
+
+
+@witness("C08", "getitem/basic-*/string-nd/*")
+def _():
+    x = np.array([["a", "b", "c"], ["d", "e", "f"]])
+    return _ne(ndx.asarray(x)[1, ...].to_numpy(), x[1])
+
+
+@witness("C20", "iter/eager/string-rank2*/wrong-items")
+def _():
+    x = np.array([["a", "b", "c"], ["d", "e", "f"]])
+    return any(_ne(it.to_numpy(), x[i]) for i, it in enumerate(ndx.asarray(x)))
+
+
 def replay_all(ctx):  # noqa: E302
     for key, fn in W.get(ctx.prop, {}).items():
         try:
